@@ -720,9 +720,13 @@ void Listener::CancelWaiting(const_str name)
 
 void Listener::CancelWaitingAll()
 {
+    // cancelling can delete the sources that lose their last waiter, and a source that was in turn
+    // waiting on this listener takes it down with it
+    const SafePtr<Listener> self = this;
+
     CancelWaiting(const_str(0));
 
-    if (!m_WaitForList)
+    if (!self || !m_WaitForList)
     {
         return;
     }
